@@ -20,7 +20,11 @@
 (*   Width    the result's float type is at least as wide as the input's item *)
 (*            size (a narrower one could not hold "the formula's value" of    *)
 (*            that input; C17 demands the same of plain conversions)          *)
-(*   Unit     ... expressed in the requested unit                             *)
+(*   Unit     ... expressed in the requested unit: a string target is read in  *)
+(*            the INPUT's registry (re-valued standard symbols, code units), a *)
+(*            Unit object means itself; the numbers are converted to SI with   *)
+(*            that unit's value, so "whatever units input and target are       *)
+(*            expressed in" covers units whose value comes from the registry   *)
 (*   Twin     the in-place form gives the numbers the copying form gave for   *)
 (*            the same request on the same object                             *)
 (*   Inv/Path inside one equivalence (same keywords) all numbers observed for *)
@@ -40,9 +44,9 @@ Known(vs) == \A i \in DOMAIN vs : vs[i].k = "sv"
 ToSVs(vs) == [i \in DOMAIN vs |-> SV(vs[i].r, vs[i].e)]
 NoSeen == [d \in AllDims |-> <<>>]
 NoCtx == [eq |-> "", k |-> 0, od |-> ""]
-CurOf(t) == [d |-> t.init.d, u |-> t.init.u, v |-> t.init.v, dt |-> t.init.dt, sh |-> t.init.sh]
+CurOf(t) == [d |-> t.init.d, u |-> t.init.u, v |-> t.init.v, dt |-> t.init.dt, sh |-> t.init.sh, reg |-> t.init.reg]
 TraceInit == /\ tid = 1 /\ l = 1
-             /\ cur = IF Len(Traces) > 0 THEN CurOf(Traces[1]) ELSE [d |-> "", u |-> 0, v |-> <<>>, dt |-> "", sh |-> ""]
+             /\ cur = IF Len(Traces) > 0 THEN CurOf(Traces[1]) ELSE [d |-> "", u |-> 0, v |-> <<>>, dt |-> "", sh |-> "", reg |-> ""]
              /\ ctx = NoCtx /\ seen = NoSeen /\ direct = {}
 
 \* diagnostics: the numbers of the current object as text (keys of known findings use it)
@@ -55,7 +59,7 @@ VSig(vs) == IF ~Known(vs) THEN "foreign"
 Fail(clause, e, detail) ==
   PrintT(ToJson([tag |-> "P-FAIL", tid |-> tid, l |-> l, clause |-> clause, eq |-> e.eq, from |-> cur.d, to |-> Units[e.tu].d,
                  en |-> e.en, form |-> IF e.en \in CopyEntries THEN "copy" ELSE "inplace", dt |-> cur.dt, rdt |-> e.obs.dt, sh |-> cur.sh,
-                 k |-> e.k, uin |-> Units[cur.u].s, uout |-> Units[e.tu].s, vsig |-> VSig(cur.v), detail |-> detail]))
+                 reg |-> Traces[tid].init.reg, tf |-> e.tf, k |-> e.k, uin |-> Units[cur.u].s, uout |-> Units[e.tu].s, vsig |-> VSig(cur.v), detail |-> detail]))
 
 StepP(e) ==
   LET o == e.obs
@@ -90,7 +94,7 @@ StepP(e) ==
   \* bookkeeping of the observed object
   /\ LET moved == o.k = "ok" /\ e.fo /\ e.en # "to_value"
          good == cov /\ o.k = "ok" /\ ~formulaBad /\ ~consBad /\ allRep IN
-     /\ cur' = IF moved THEN [d |-> tb, u |-> e.tu, v |-> o.v, dt |-> o.dt,
+     /\ cur' = IF moved THEN [d |-> tb, u |-> e.tu, v |-> o.v, dt |-> o.dt, reg |-> cur.reg,
                               sh |-> IF e.en \in InPlaceEntries THEN cur.sh ELSE IF cur.sh = "q" THEN "q" ELSE "a"]
                ELSE cur
      /\ ctx' = IF cov /\ o.k = "ok" THEN (IF good \/ ~moved THEN [eq |-> e.eq, k |-> e.k, od |-> od] ELSE [eq |-> e.eq, k |-> e.k, od |-> tb])
@@ -108,7 +112,7 @@ StepP(e) ==
 StepT(e) ==
   LET o == e.obs IN
   Known(cur.v) =>
-    LET m == Outcome([d |-> cur.d, u |-> cur.u, v |-> ToSVs(cur.v), dt |-> cur.dt, sh |-> cur.sh], e)
+    LET m == Outcome([d |-> cur.d, u |-> cur.u, v |-> ToSVs(cur.v), dt |-> cur.dt, sh |-> cur.sh, reg |-> cur.reg], e)
         ok == \/ m.k = "undef"
               \/ /\ m.k = o.k /\ m.exc = o.exc /\ o.frame
                  /\ m.k = "ok" => (/\ Len(o.v) = Len(m.v)
@@ -126,6 +130,6 @@ TraceNext ==
      /\ l' = l + 1 /\ tid' = tid
   \/ /\ tid <= Len(Traces) /\ l > Len(Traces[tid].ev)
      /\ tid' = tid + 1 /\ l' = 1
-     /\ cur' = IF tid + 1 <= Len(Traces) THEN CurOf(Traces[tid + 1]) ELSE [d |-> "", u |-> 0, v |-> <<>>, dt |-> "", sh |-> ""]
+     /\ cur' = IF tid + 1 <= Len(Traces) THEN CurOf(Traces[tid + 1]) ELSE [d |-> "", u |-> 0, v |-> <<>>, dt |-> "", sh |-> "", reg |-> ""]
      /\ ctx' = NoCtx /\ seen' = NoSeen /\ direct' = {}
 =============================================================================
